@@ -404,10 +404,10 @@ static void own(struct thr *t, struct lnode *n, int op, uint64_t others_before)
 			sid &= 511;
 			if (!(t->sigmask_seen[sid >> 6] & (1ULL << (sid & 63)))) {
 				t->sigmask_seen[sid >> 6] |= 1ULL << (sid & 63);
-				vp_sig_add("own:%s:winner=%s:racing=%s%s%s%s:n=%d:resize=%d:%s/%s", g_cfgname, op_names[op],
+				vp_sig_add("own:winner=%s:racing=%s%s%s%s:n=%d:resize=%d:%s/%s:%s", op_names[op],
 					   (kinds & 1) ? "del," : "", (kinds & 2) ? "replace," : "", (kinds & 4) ? "add_replace," : "",
 					   kinds ? "" : "seen-by-loser",
-					   nothers > 2 ? 3 : nothers, rz, mm_names[g_rc.mm], ak_names[g_rc.ak]);
+					   nothers > 2 ? 3 : nothers, rz, mm_names[g_rc.mm], ak_names[g_rc.ak], VP_FLAVOR_NAME);
 				vp_sample_add("cfg=%s round=%llu {%s}: node id=%llx key=%llx obtained by %s (thread %d) while %d other removal attempt(s) "
 					      "[%s%s%s] were in flight on it; resize active=%d; every loser must see a negative return",
 					      g_cfgname, (unsigned long long) g_round, g_rc.str, (unsigned long long) n->id,
